@@ -5,6 +5,9 @@ Property theorems about `Model/Journal.lean` (the sqlite journal as a log of row
 `update_records(.., true)` with its two journal writes, `persist_to_journal`,
 `recover_with_journal`) on top of the C12 model and its invariant `KInv`.
 
+The model is the code after the repairs of C12 (wrapping serial bump, RFC 1982 SOA comparison, …):
+the theorems need no overflow side condition any more.
+
 Reading of the property: the on-disk states a stop can leave are the prefixes of the row list
 (each `insert_record` is one sqlite commit).  Theorems 1–4 are about prefixes that end at a
 message boundary; `cut_inside_update` shows that the other prefixes do *not* recover to a
@@ -150,73 +153,49 @@ theorem recoverFrom_updates (c : Cfg) (recs : List Rec) (h : Upd.preScan c recs 
         simp only
         exact ih h z' _
 
-/-- at the apex of a well-formed zone nothing blocks an SOA upsert -/
-theorem apex_soa_not_blocked (c : Cfg) (z : Zone) (h : KInv c z) (r : Rec) (hk : r.key = (c.origin, T_SOA)) :
-    upsertBlocked z r = false := by
-  obtain ⟨r0, _, _, hg, _⟩ := h.soa
-  have hname : r.name.toLowercase = c.origin := by
-    have := congrArg Prod.fst hk; simpa [Rec.key] using this
-  have hty : r.rtype = T_SOA := by
-    have := congrArg Prod.snd hk; simpa [Rec.key] using this
-  unfold upsertBlocked
-  rw [List.any_eq_false]
-  intro t ht
-  rw [hname] at ht
-  rw [hty]
-  have hsome := Zone.get_of_mem_typesAt _ _ _ ht
-  by_cases htc : t = T_CNAME
-  · exfalso
-    subst htc
-    have := h.cname c.origin T_SOA hsome (by decide) (by decide) (by decide) (by decide)
-    rw [hg] at this; cases this
-  · have h65 : (T_SOA == T_CNAME) = false := by decide
-    have htc' : (t == T_CNAME) = false := by simpa using htc
-    simp [labelDisallow, h65, htc']
-
-/-- the post-update SOA row replays to exactly what `increment_soa_serial` did in memory -/
+/-- the post-update SOA row replays to exactly what `increment_soa_serial` did in memory — also
+across the wrap `u32::MAX → 0` (the replayed SOA add compares by RFC 1982 since aeeb945) -/
 theorem recoverRow_soa (c : Cfg) (z1 : Zone) (h : KInv c z1) (soa : Rec)
     (hz2 : KInv c (z1.set (c.origin, T_SOA) [soa]))
-    (hs : serial (z1.set (c.origin, T_SOA) [soa]) c.origin = serial z1 c.origin + 1) :
+    (hs : serial (z1.set (c.origin, T_SOA) [soa]) c.origin = (serial z1 c.origin + 1) % 4294967296) :
     recoverRow c z1 soa = some (z1.set (c.origin, T_SOA) [soa]) := by
   obtain ⟨r, s, rest, hg, hr, _, _⟩ := h.soa
   obtain ⟨r2, s2, rest2, hg2, hr2, hk2, hc2⟩ := hz2.soa
   rw [get_set, if_pos rfl] at hg2
   have hr2eq : soa = r2 := by cases hg2; rfl
   subst hr2eq
-  have hser2 : s2 = s + 1 := by
+  have hser2 : s2 = (s + 1) % 4294967296 := by
     have e1 := serial_of_soa (c := c) (z := z1.set (c.origin, T_SOA) [soa]) (r := soa) (by rw [get_set, if_pos rfl]) hr2
     have e2 := serial_of_soa hg hr
-    omega
+    rw [← e1, hs, e2]
   have hty : soa.rtype = T_SOA := by
     have := congrArg Prod.snd hk2; simpa [Rec.key] using this
+  have hname : soa.name.toLowercase = c.origin := by
+    have := congrArg Prod.fst hk2; simpa [Rec.key] using this
   have hax : soa.rtype ≠ T_AXFR := by rw [hty]; decide
   unfold recoverRow
   rw [if_neg hax]
   unfold updateRecords applyAll
-  rw [applyRR_zone hc2]
+  rw [applyRR_zone hc2 (by intro hh; exact hh.2 hname)]
   have hup : upsert c.zclass z1 soa = (z1.set (c.origin, T_SOA) [soa], true) := by
     unfold upsert
-    rw [if_neg (by simp [hc2]), apex_soa_not_blocked c z1 h soa hk2]
+    rw [if_neg (by simp [hc2]), apex_soa_not_blocked c z1 z1 h (fun _ hh => hh) soa hk2]
     simp only [Bool.false_eq_true, if_false, hk2, hg]
     have : rsInsert [r] soa = ([soa], true) := by
       rcases rsInsert_soa r soa s rest hty hr with h1 | ⟨sn, rest', hd, _, h1⟩
       · exfalso
+        have hlt := serialNumberLt_succ s
         unfold rsInsert insertPre at h1
         rw [if_pos hty] at h1
-        simp only [hr, hr2] at h1
-        rw [if_neg (by omega)] at h1
-        simp [replaceDup] at h1
+        simp [hr, hr2, hser2, hlt, replaceDup] at h1
       · exact h1
     simp [this]
   simp [hup, applyAll]
 
 /-- **one message**: the rows a message appends replay, from the zone before it, to the zone after
-it (well-formed zone, no overflow panic). -/
-theorem updateJ_replays (c : Cfg) (z : Zone) (j : Journal) (m : Msg) (h : KInv c z)
-    (hnp : ∀ site, (update c true z m).2.2.1 ≠ .panic site) :
+it (any well-formed zone). -/
+theorem updateJ_replays (c : Cfg) (z : Zone) (j : Journal) (m : Msg) (h : KInv c z) :
     ∃ rows, (updateJ c z j m).2.1 = j ++ rows ∧ recoverFrom c z rows = some (updateJ c z j m).1 := by
-  unfold update at hnp
-  simp only [Bool.not_true, Bool.false_eq_true, if_false] at hnp
   unfold updateJ liveUpdateRecords
   cases h1 : verifyPrereqs c z m.prereqs with
   | some e => exact ⟨[], by simp, rfl⟩
@@ -224,14 +203,13 @@ theorem updateJ_replays (c : Cfg) (z : Zone) (j : Journal) (m : Msg) (h : KInv c
     cases h2 : Upd.preScan c m.updates with
     | some e => exact ⟨[], by simp, rfl⟩
     | none =>
-      simp only [h1, h2] at hnp ⊢
+      simp only
       refine ⟨m.updates ++ (updateRecords c z m.updates true).2.2.toList, by simp [List.append_assoc], ?_⟩
       rw [recoverFrom_append, recoverFrom_updates c m.updates h2 z false]
       simp only [Option.bind_some]
       obtain ⟨b, hb⟩ := applyAll_some_of_prescan c m.updates h2 z false
-      rcases updateRecords_spec c z m.updates h b hb with ⟨_, hu⟩ | ⟨_, _, site, hu⟩ | ⟨_, _, soa, hu, hk2, hs⟩
+      rcases updateRecords_spec c z m.updates h b hb with ⟨_, hu⟩ | ⟨_, soa, hu, hk2, hs⟩
       · rw [hu]; rfl
-      · exfalso; exact hnp site (by rw [hu])
       · rw [hu]
         simp only [Option.toList_some, recoverFrom]
         rw [recoverRow_soa c _ (kinv_applyAll c m.updates z false h) soa hk2 hs]
@@ -245,17 +223,16 @@ def DumpReplays (c : Cfg) (z0 : Zone) : Prop := recover c (persist z0 []) = some
 
 instance (c : Cfg) (z0 : Zone) : Decidable (DumpReplays c z0) := by unfold DumpReplays; exact inferInstance
 
-theorem replay_run (c : Cfg) (h : List Msg) : ∀ z j, KInv c z → NoPanic c z h →
+theorem replay_run (c : Cfg) (h : List Msg) : ∀ z j, KInv c z →
     recover c j = some z → recover c (runJ c z j h).2 = some (runJ c z j h).1 := by
   induction h with
-  | nil => intro z j _ _ hr; exact hr
+  | nil => intro z j _ hr; exact hr
   | cons m ms ih =>
-    intro z j hk hnp hr
+    intro z j hk hr
     simp only [runJ]
-    obtain ⟨rows, hj, hrep⟩ := updateJ_replays c z j m hk hnp.1
-    have hk' : KInv c (updateJ c z j m).1 := by rw [updateJ_zone]; exact inv_preserved c z m hk hnp.1
-    have hnp' : NoPanic c (updateJ c z j m).1 ms := by rw [updateJ_zone]; exact hnp.2
-    apply ih _ _ hk' hnp'
+    obtain ⟨rows, hj, hrep⟩ := updateJ_replays c z j m hk
+    have hk' : KInv c (updateJ c z j m).1 := by rw [updateJ_zone]; exact inv_preserved c z m hk
+    apply ih _ _ hk'
     unfold recover at hr ⊢
     rw [hj, recoverFrom_append, hr]
     exact hrep
@@ -263,28 +240,18 @@ theorem replay_run (c : Cfg) (h : List Msg) : ∀ z j, KInv c z → NoPanic c z 
 /-- **recovery_refines_memory** — for every history, replaying the journal reconstructs exactly the
 in-memory zone (every acknowledged update present, none half-applied) at the message boundary. -/
 theorem recovery_refines_memory (c : Cfg) (z0 : Zone) (h : List Msg) (hk : KInv c z0)
-    (hd : DumpReplays c z0) (hnp : NoPanic c z0 h) :
-    recover c (journalAfter c z0 h) = some (zoneAfter c z0 h) :=
-  replay_run c h z0 _ hk hnp hd
+    (hd : DumpReplays c z0) : recover c (journalAfter c z0 h) = some (zoneAfter c z0 h) :=
+  replay_run c h z0 _ hk hd
 
 /-- **recovery_total** — recovery never fails on a journal the server itself wrote -/
 theorem recovery_total (c : Cfg) (z0 : Zone) (h : List Msg) (hk : KInv c z0)
-    (hd : DumpReplays c z0) (hnp : NoPanic c z0 h) : recover c (journalAfter c z0 h) ≠ none := by
-  rw [recovery_refines_memory c z0 h hk hd hnp]; simp
-
-theorem noPanic_append (c : Cfg) (h1 h2 : List Msg) : ∀ z, NoPanic c z (h1 ++ h2) →
-    NoPanic c z h1 ∧ NoPanic c (runAll c z h1) h2 := by
-  induction h1 with
-  | nil => intro z h; exact ⟨trivial, h⟩
-  | cons m ms ih =>
-    intro z h
-    obtain ⟨a, b⟩ := ih _ h.2
-    exact ⟨⟨h.1, a⟩, b⟩
+    (hd : DumpReplays c z0) : recover c (journalAfter c z0 h) ≠ none := by
+  rw [recovery_refines_memory c z0 h hk hd]; simp
 
 /-- **recovery_at_every_boundary** — a stop after the last row of *any* message of the history (the
 journal cut there) recovers the zone as of that boundary. -/
 theorem recovery_at_every_boundary (c : Cfg) (z0 : Zone) (h1 h2 : List Msg) (hk : KInv c z0)
-    (hd : DumpReplays c z0) (hnp : NoPanic c z0 (h1 ++ h2)) :
+    (hd : DumpReplays c z0) :
     recover c ((journalAfter c z0 (h1 ++ h2)).take (journalAfter c z0 h1).length) = some (zoneAfter c z0 h1) := by
   have hpre : ∃ rows, journalAfter c z0 (h1 ++ h2) = journalAfter c z0 h1 ++ rows := by
     unfold journalAfter
@@ -292,60 +259,62 @@ theorem recovery_at_every_boundary (c : Cfg) (z0 : Zone) (h1 h2 : List Msg) (hk 
     exact runJ_prefix c h2 _ _
   obtain ⟨rows, hrows⟩ := hpre
   rw [hrows, List.take_left']
-  · exact recovery_refines_memory c z0 h1 hk hd (noPanic_append c h1 h2 z0 hnp).1
+  · exact recovery_refines_memory c z0 h1 hk hd
   · rfl
 
 /-- **continue_after_recovery** — going on after a restart at a boundary is going on without one:
 the zone after `h₁ ++ h₂` is the run of `h₂` from the recovered zone. -/
 theorem continue_after_recovery (c : Cfg) (z0 : Zone) (h1 h2 : List Msg) (hk : KInv c z0)
-    (hd : DumpReplays c z0) (hnp : NoPanic c z0 h1) :
+    (hd : DumpReplays c z0) :
     ∃ zr, recover c (journalAfter c z0 h1) = some zr ∧ zoneAfter c z0 (h1 ++ h2) = runAll c zr h2 := by
-  refine ⟨zoneAfter c z0 h1, recovery_refines_memory c z0 h1 hk hd hnp, ?_⟩
+  refine ⟨zoneAfter c z0 h1, recovery_refines_memory c z0 h1 hk hd, ?_⟩
   unfold zoneAfter
   rw [runJ_append, runJ_zone]
 
 /-- … and the journal it then keeps writing (second crash) still replays to the zone -/
 theorem second_recovery (c : Cfg) (z0 : Zone) (h1 h2 : List Msg) (hk : KInv c z0)
-    (hd : DumpReplays c z0) (hnp : NoPanic c z0 (h1 ++ h2)) :
+    (hd : DumpReplays c z0) :
     ∃ zr, recover c (journalAfter c z0 h1) = some zr ∧
       recover c (runJ c zr (journalAfter c z0 h1) h2).2 = some (runAll c zr h2) := by
-  obtain ⟨hn1, hn2⟩ := noPanic_append c h1 h2 z0 hnp
-  refine ⟨zoneAfter c z0 h1, recovery_refines_memory c z0 h1 hk hd hn1, ?_⟩
+  refine ⟨zoneAfter c z0 h1, recovery_refines_memory c z0 h1 hk hd, ?_⟩
   have hk1 : KInv c (zoneAfter c z0 h1) := by
-    unfold zoneAfter; rw [runJ_zone]; exact (inv_preserved_history c h1 z0 hk hn1).1
-  have hn2' : NoPanic c (zoneAfter c z0 h1) h2 := by unfold zoneAfter; rw [runJ_zone]; exact hn2
+    unfold zoneAfter; rw [runJ_zone]; exact (inv_preserved_history c h1 z0 hk).1
   rw [← runJ_zone c h2 _ (journalAfter c z0 h1)]
-  exact replay_run c h2 _ _ hk1 hn2' (recovery_refines_memory c z0 h1 hk hd hn1)
+  exact replay_run c h2 _ _ hk1 (recovery_refines_memory c z0 h1 hk hd)
 
-/-- the serial never decreases along a history (plain u32 order; no wrap: `NoPanic`) -/
-theorem serial_mono_run (c : Cfg) (h : List Msg) : ∀ z, KInv c z → NoPanic c z h →
-    serial z c.origin ≤ serial (runAll c z h) c.origin := by
+/-- along a history the serial only ever moves by RFC 1982 advances (across the wrap, too) -/
+theorem serial_path_run (c : Cfg) (h : List Msg) : ∀ z, KInv c z →
+    SerialPath (serial z c.origin) (serial (runAll c z h) c.origin) := by
   induction h with
-  | nil => intro z _ _; exact Nat.le_refl _
+  | nil => intro z _; exact SerialPath.refl _
   | cons m ms ih =>
-    intro z hk hnp
+    intro z hk
     simp only [runAll]
-    have hstep : serial z c.origin ≤ serial (update c true z m).1 c.origin := by
+    have hstep : SerialPath (serial z c.origin) (serial (update c true z m).1 c.origin) := by
       cases hres : (update c true z m).2.2.1 with
-      | panic site => exact absurd hres (hnp.1 site)
-      | rc e => rw [update_rc_unchanged c z m hk e hres]; exact Nat.le_refl _
+      | panic site => exact absurd hres (no_panic c z m hk site)
+      | rc e => rw [update_rc_unchanged c z m hk e hres]; exact SerialPath.refl _
       | ok b =>
         cases b with
-        | false => rw [not_updated_unchanged c z m hres]; exact Nat.le_refl _
-        | true => exact Nat.le_of_lt (updated_serial_succ c z m hk hres).2.1
-    exact Nat.le_trans hstep (ih _ (inv_preserved c z m hk hnp.1) hnp.2)
+        | false => rw [not_updated_unchanged c z m hres]; exact SerialPath.refl _
+        | true =>
+          obtain ⟨_, hlt, hp⟩ := updated_serial_succ c z m hk hres
+          exact SerialPath.step hp hlt
+    exact hstep.trans (ih _ (inv_preserved c z m hk))
 
-/-- **serial_monotone_across_recovery** — whatever serial the server had answered with (after any
-prefix `h₁` of the history), the serial after recovery is not lower. -/
+/-- **serial_monotone_across_recovery** — the serial after recovery is *exactly* the serial the
+server last answered with, and whatever serial it had answered with earlier (after any prefix `h₁`
+of the history) is connected to it by RFC 1982 advances only — across `u32::MAX → 0` as well.
+(RFC 1982's "newer" is not transitive beyond 2³¹, hence the chain rather than one comparison.) -/
 theorem serial_monotone_across_recovery (c : Cfg) (z0 : Zone) (h1 h2 : List Msg) (hk : KInv c z0)
-    (hd : DumpReplays c z0) (hnp : NoPanic c z0 (h1 ++ h2)) :
+    (hd : DumpReplays c z0) :
     ∃ zr, recover c (journalAfter c z0 (h1 ++ h2)) = some zr ∧
-      serial (zoneAfter c z0 h1) c.origin ≤ serial zr c.origin := by
-  refine ⟨zoneAfter c z0 (h1 ++ h2), recovery_refines_memory c z0 _ hk hd hnp, ?_⟩
-  obtain ⟨hn1, hn2⟩ := noPanic_append c h1 h2 z0 hnp
+      serial zr c.origin = serial (zoneAfter c z0 (h1 ++ h2)) c.origin ∧
+      SerialPath (serial (zoneAfter c z0 h1) c.origin) (serial zr c.origin) := by
+  refine ⟨zoneAfter c z0 (h1 ++ h2), recovery_refines_memory c z0 _ hk hd, rfl, ?_⟩
   unfold zoneAfter
   rw [runJ_append, runJ_zone, runJ_zone]
-  exact serial_mono_run c h2 _ (inv_preserved_history c h1 z0 hk hn1).1 hn2
+  exact serial_path_run c h2 _ (inv_preserved_history c h1 z0 hk).1
 
 /-! ### the negative result: cuts inside a row group (known finding) -/
 
@@ -392,10 +361,13 @@ theorem cut_inside_update :
 example : KInv exCfg (exZone 100) ∧ DumpReplays exCfg (exZone 100) :=
   ⟨kinv_of_check _ _ (by decide), by decide⟩
 
-example : NoPanic exCfg (exZone 100) [twoAdds] := by
-  refine ⟨?_, trivial⟩
-  intro site h
-  have e : (update exCfg true (exZone 100) twoAdds).2.2.1 = .ok true := by decide
-  rw [e] at h; cases h
+/-- regression (was: release-profile / wrapping-add-alone divergence at a boundary): a bump from
+`u32::MAX` journals an SOA row with serial 0, and the replay accepts it — the journal recovers the
+zone with serial 0, exactly what memory holds -/
+example :
+    let c := exCfg
+    let z0 := exZone U32_MAX
+    DumpReplays c z0 ∧ serial (zoneAfter c z0 [twoAdds]) exOrigin = 0 ∧
+    recover c (journalAfter c z0 [twoAdds]) = some (zoneAfter c z0 [twoAdds]) := by decide
 
 end HickoryVerif.C14
